@@ -6,6 +6,7 @@ depend on a THREADED state (carried through `extract_by_src`) and on the batch e
 exact. The Lean model gets an independently built history -> scores table (LM run unbatched
 along every history). `functional.beam_search_advance` is also driven directly.
 """
+import contextlib
 import itertools
 from fractions import Fraction
 
@@ -121,13 +122,17 @@ class C04(PropertyCheck):
         "the language model computes batch rows independently (true of the harness LM)",
         "update_log_probs_for_step does not modify log_probs_prev",
         "slots with score -inf are unspecified (paths/lengths not compared)",
+        "cells beam_search_advance leaves uninitialised (y_next.new_empty padding columns) are left as allocated or "
+        "filled with the eos token / a negative number / a token beyond the vocabulary (a function of the case); the "
+        "Lean model has them as the parameter Cfg.junk (theorems: any value; driver: 0)",
         "float mode (no hook): the model runs on the exact rational values of the floats the LM + log_softmax "
         "return unbatched IN THE MODEL'S OWN DTYPE (the model's own chained log-probability = log_softmax, in "
         "its dtype, of what it hands over); reported scores are compared with tolerance 2^10 eps of the dtype "
         "the search accumulates in (torch's promotion of the start score with the model's dtype; relative "
         "beyond |score| 64) and paths only when every selection along the model's trajectory was decided by a "
         "margin >= 2^14 eps; that this rule implies the hypothesis of the proved C04_skeleton_stable (sepB with "
-        "half that margin on every selection) is re-checked by the driver on every float case",
+        "half that margin on every selection) is re-checked by the driver on every float case; a constant margin m on "
+        "every selection implies the theorem's step-dependent hypothesis for eps <= m / (2 max_iters): C04_margin_rule",
         "log_softmax and the elementwise operations of the harness models give a row the same bits whatever "
         "else is in the batch (measured: the unbatched table reproduces the batched run to <= 5% of the tolerance)",
     ]
@@ -410,9 +415,45 @@ class C04(PropertyCheck):
                               "path": [int(x) for x in y[:max(ln, 0), k]]})
         return slots
 
+    @staticmethod
+    def junk_of(case):
+        """What the integer cells `Tensor.new_empty` leaves uninitialised hold during the search
+        (`beam_search_advance` pads the beam with `y_next.new_empty(...)` columns while fewer than `width`
+        candidates exist).  The Lean model carries that value as the parameter `Cfg.junk`, every theorem holds for
+        all of its values and the driver runs `junk = 0`; only finite-score slots are compared.  So that the
+        implementation is exercised on more than whatever the allocator hands out (mostly zeros): None = leave
+        the memory alone, else the eos token (a junk column then 'ends in eos'), a negative number, a token beyond
+        the vocabulary.  A deterministic function of the case (audit, round e)."""
+        if "junk" in case:
+            return case["junk"]
+        V, e = case["V"], case.get("eos")
+        eos = (e + V) % V if isinstance(e, int) and -V <= e < V else V - 1
+        return [None, eos, -7, V + 5, eos][int(case_hash(case), 16) % 5]
+
+    @staticmethod
+    @contextlib.contextmanager
+    def junk_cells(value):
+        import torch
+        if value is None:
+            yield
+            return
+        orig = torch.Tensor.new_empty
+
+        def new_empty(self, *a, **k):
+            t = orig(self, *a, **k)
+            if not t.is_floating_point() and t.dtype != torch.bool:
+                t.fill_(value)
+            return t
+
+        torch.Tensor.new_empty = new_empty
+        try:
+            yield
+        finally:
+            torch.Tensor.new_empty = orig
+
     def _run_search(self, case, ctx, batch):
         import torch
-        with L.default_dtype(case["lm"]), torch.no_grad():
+        with L.default_dtype(case["lm"]), torch.no_grad(), self.junk_cells(self.junk_of(case)):
             lm = L.make_lm(case["V"], case["qbits"], case["lm"])
             s = L.make_search(lm, case["width"], case["eos"], case["finish_all"], case["pad"], case["qbits"],
                               case.get("via", "instance"))
@@ -860,7 +901,10 @@ class C04(PropertyCheck):
         V, T = case["V"], case["max_iters"]
         if case.get("malformed"):
             return ["search", "search.malformed=" + case["malformed"]]
-        t = ["search", f"V={V}", f"max_iters={T}", f"batch={case['batch']}",
+        jk = self.junk_of(case)
+        junk_tag = "search.uninitialised_cells=" + ("as allocated" if jk is None else "negative" if jk < 0 else
+                                                    "beyond vocabulary" if jk >= V else "the eos token")
+        t = ["search", junk_tag, f"V={V}", f"max_iters={T}", f"batch={case['batch']}",
              f"finish_all={case['finish_all']}", "via=" + case.get("via", "instance"),
              "mode=" + ("float(tolerance)" if is_float(case) else f"exact(qbits={case['qbits']})"),
              "lm.kind=" + case["lm"].get("kind", "hash")]
@@ -927,6 +971,8 @@ class C04(PropertyCheck):
                 c["width"] = case["width"] - 1
                 yield c
             return
+        if "junk" not in case:      # smaller candidates keep the uninitialised-cell value of the failing run
+            case = dict(case, junk=self.junk_of(case))
         n = len(case["seeds"])
         if case["batch"] is not None and n > 1:
             for drop in range(n):
